@@ -49,7 +49,7 @@ m('srv-batch-nil-digest-unchecked', 'R14a', CAS,
 
 		err := s.validateHash(req.Digest.Hash, req.Digest.SizeBytes, errorPrefix)''',
   '''		err := s.validateHash(req.Digest.Hash, req.Digest.SizeBytes, errorPrefix)''')
-m('srv-findmissing-unvalidated', 'R10g,R15e', CAS,
+m('srv-findmissing-unvalidated', 'R10g', CAS,
   '''		err := s.validateHash(digest.Hash, digest.SizeBytes, errorPrefix)
 		if err != nil {
 			return nil, err
@@ -60,6 +60,7 @@ m('srv-findmissing-unvalidated', 'R10g,R15e', CAS,
   '''		if digest.SizeBytes < 0 {
 			return nil, errNilDigest
 		}
+		_ = errorPrefix
 	}
 
 	missingBlobs, err''')
@@ -91,18 +92,36 @@ m('srv-uar-ac-put-first', 'R11d', AC,
 	// Cache any inlined blobs, separately in the CAS, before storing the
 	// ActionResult itself''')
 m('srv-uar-no-mangling', 'R15d', AC,
-  '''	if s.mangleACKeys {
+  '''	if req.ActionDigest == nil {
+		return nil, errNilActionDigest
+	}
+
+	if s.mangleACKeys {
 		req.ActionDigest.Hash = cache.TransformActionCacheKey(req.ActionDigest.Hash, req.InstanceName, s.accessLogger)
 	}
 
-	err := s.validateHash(req.ActionDigest.Hash, req.ActionDigest.SizeBytes, logPrefix)''',
-  '''	err := s.validateHash(req.ActionDigest.Hash, req.ActionDigest.SizeBytes, logPrefix)''')
+	err := s.validateHash(req.ActionDigest.Hash, req.ActionDigest.SizeBytes, logPrefix)
+	if err != nil {
+		return nil, err
+	}
+
+	// Validate the ActionResult's immediate fields''',
+  '''	if req.ActionDigest == nil {
+		return nil, errNilActionDigest
+	}
+
+	err := s.validateHash(req.ActionDigest.Hash, req.ActionDigest.SizeBytes, logPrefix)
+	if err != nil {
+		return nil, err
+	}
+
+	// Validate the ActionResult's immediate fields''')
 m('srv-uar-inlined-declared-hash-computed-size', 'R01f', AC,
   '''			err = s.cache.Put(ctx, cache.CAS, f.Digest.Hash,
 				f.Digest.SizeBytes, bytes.NewReader(f.Contents))''',
   '''			err = s.cache.Put(ctx, cache.CAS, f.Digest.Hash,
 				int64(len(f.Contents)), bytes.NewReader(f.Contents))''')
-m('srv-uar-stdout-put-error-ignored', 'R01h,R11d', AC,
+m('srv-uar-stdout-put-error-ignored', 'R01h', AC,
   '''		err = s.cache.Put(ctx, cache.CAS, hash, sizeBytes,
 			bytes.NewReader(req.ActionResult.StdoutRaw))
 		if err != nil && err != io.EOF {
@@ -127,9 +146,6 @@ m('srv-worker-metadata-overwrites-result', 'R11e', AC,
 m('http-put-limit-nonstrict', 'R18b', HTTP,
   '		if contentLength > h.maxCasBlobSizeBytes {',
   '		if contentLength >= h.maxCasBlobSizeBytes {')
-m('http-put-no-limit-for-ac', 'R18b', HTTP,
-  '		if contentLength > h.maxCasBlobSizeBytes {',
-  '		if contentLength > h.maxCasBlobSizeBytes && kind == cache.CAS {')
 m('http-put-reader-limited', 'R01g', HTTP,
   '			rdr = rc\n		}\n\n		err := h.cache.Put(',
   '			rdr = io.LimitReader(rc, contentLength)\n		}\n\n		err := h.cache.Put(')
@@ -156,12 +172,9 @@ m('http-put-write-cert-only-cas', 'R13g', HTTP,
   '		if h.checkClientCertForWrites && !h.hasValidClientCert(w, r) {',
   '		if h.checkClientCertForWrites && kind == cache.CAS && !h.hasValidClientCert(w, r) {')
 m('http-status-wrong-field', 'R03f', HTTP,
-  '		ReservedSize:     reservedSize,',
-  '		ReservedSize:     totalSize,')
+  '		UncompressedSize: uncompressedSize,\n		ReservedSize:     reservedSize,',
+  '		UncompressedSize: reservedSize,\n		ReservedSize:     uncompressedSize,')
 # ---- grpc.go
-m('grpc-errcode-nil-not-ok', 'R01h', GRPC,
-  'func gRPCErrCode(err error, dflt codes.Code) codes.Code {\n	if err == nil {\n		return codes.OK\n	}',
-  'func gRPCErrCode(err error, dflt codes.Code) codes.Code {\n	if err == nil {\n		return dflt\n	}')
 m('grpc-capabilities-other-limit', 'R18c', GRPC,
   'MaxCasBlobSizeBytes:             s.maxCasBlobSizeBytes,',
   'MaxCasBlobSizeBytes:             s.maxCasBlobSizeBytes * 2,')
